@@ -164,6 +164,21 @@ class SymbolTable:
     _is_context_boundary: bool = False
     _parent: Optional["SymbolTable"] = None
     _table: MutableMapping[sym.Symbol, SymbolTableEntry] = attr.ib(factory=dict)
+    _py_params: set[str] = attr.ib(factory=set)
+
+    def new_py_param(self, py_name: str) -> "SymbolTable":
+        """Record that a Python function parameter named `py_name` is defined in this
+        frame."""
+        self._py_params.add(py_name)
+        return self
+
+    def is_py_param(self, py_name: str) -> bool:
+        """Return True if `py_name` is the name of a Python function parameter of this
+        or any enclosing frame. A Python global of the same name is not visible from
+        code generated in such a frame."""
+        if py_name in self._py_params:
+            return True
+        return self._parent is not None and self._parent.is_py_param(py_name)
 
     def new_symbol(self, s: sym.Symbol, munged: str, ctx: LocalType) -> "SymbolTable":
         if s in self._table:
@@ -1703,6 +1718,7 @@ def __fn_args_to_py_ast(
         else:
             arg_tag = None
 
+        ctx.symbol_table.new_py_param(arg_name)
         if not binding.is_variadic:
             fn_args.append(ast.arg(arg=arg_name, annotation=arg_tag))
             ctx.symbol_table.new_symbol(
@@ -3380,9 +3396,14 @@ def _var_sym_to_py_ast(
     # Otherwise, try to direct-link it like a Python variable
     direct_link = __var_direct_link_to_py_ast(ctx.current_ns, var, py_var_ctx)
     if direct_link is not None:
-        return direct_link
-
-    if ctx.warn_on_var_indirection and not node.is_allow_var_indirection:
+        # A function parameter of the same Python name would capture a link to a
+        # module global (e.g. `(defn f [x] my.ns/x)`), so fall back to the Var.
+        if not (
+            isinstance(direct_link.node, ast.Name)
+            and ctx.symbol_table.is_py_param(direct_link.node.id)
+        ):
+            return direct_link
+    elif ctx.warn_on_var_indirection and not node.is_allow_var_indirection:
         logger.warning(
             f"could not resolve a direct link to Var '{var_name}' "
             f"({node.env.ns}:{node.env.line})"
